@@ -59,14 +59,13 @@ func (h *verifC15Hook) Call(request api.WebhookRequest, response interface{}) er
 }
 
 type verifC15Fixture struct {
-	w            *env.World
-	mgr          *Manager
-	hook         *verifC15Hook
-	enq          []interface{}
-	parentRes    *dynamicdiscovery.APIResource
-	relRes       *dynamicdiscovery.APIResource
-	parentLister *env.Lister
-	relLister    *env.Lister
+	w             *env.World
+	mgr           *Manager
+	hook          *verifC15Hook
+	enq           []interface{}
+	relRes        *dynamicdiscovery.APIResource
+	parentListers map[string]*env.Lister // by parent resource name
+	relLister     *env.Lister
 }
 
 func verifC15GVR(r *dynamicdiscovery.APIResource) schema.GroupVersionResource {
@@ -78,11 +77,11 @@ func verifC15GVK(r *dynamicdiscovery.APIResource) api.GroupVersionKind {
 }
 
 // verifC15NewFixture assembles a real Manager by hand (NewCustomizeManager
-// would build a webhook client and needs a live SharedInformerFactory).
-func verifC15NewFixture(parentRes, relRes *dynamicdiscovery.APIResource, rules []*v1alpha1.RelatedResourceRule) *verifC15Fixture {
-	f := &verifC15Fixture{w: env.NewWorld(), parentRes: parentRes, relRes: relRes}
+// would build a webhook client and needs a live SharedInformerFactory): one
+// parent informer per parent resource, the related informer already present.
+func verifC15NewFixture(parentRes []*dynamicdiscovery.APIResource, relRes *dynamicdiscovery.APIResource, rules []*v1alpha1.RelatedResourceRule) *verifC15Fixture {
+	f := &verifC15Fixture{w: env.NewWorld(), relRes: relRes, parentListers: map[string]*env.Lister{}}
 	f.hook = &verifC15Hook{rules: rules}
-	f.parentLister = env.NewLister()
 	f.relLister = env.NewLister()
 	cc := &v1alpha1.CompositeController{}
 	cc.Name = "cc"
@@ -90,13 +89,19 @@ func verifC15NewFixture(parentRes, relRes *dynamicdiscovery.APIResource, rules [
 	f.mgr = &Manager{
 		name:             "cc",
 		controller:       cc,
-		parentKinds:      common.GroupKindMap{schema.GroupKind{Group: parentRes.Group, Kind: parentRes.Kind}: parentRes},
+		parentKinds:      common.GroupKindMap{},
 		dynClient:        f.w.Dyn,
-		parentInformers:  common.InformerMap{verifC15GVR(parentRes): dynamicinformer.VerifNewResourceInformer(f.parentLister)},
+		parentInformers:  common.InformerMap{},
 		relatedInformers: common.InformerMap{verifC15GVR(relRes): dynamicinformer.VerifNewResourceInformer(f.relLister)},
 		customizeCache:   newResponseCache(),
 		enqueueParent:    func(o interface{}) { f.enq = append(f.enq, o) },
 		customizeHook:    f.hook,
+	}
+	for _, r := range parentRes {
+		l := env.NewLister()
+		f.parentListers[r.Name] = l
+		f.mgr.parentKinds.Set(schema.GroupKind{Group: r.Group, Kind: r.Kind}, r)
+		f.mgr.parentInformers.Set(verifC15GVR(r), dynamicinformer.VerifNewResourceInformer(l))
 	}
 	return f
 }
@@ -108,6 +113,7 @@ func verifC15NoSlash(s string) { rt.Assume(!strings.Contains(s, "/")) }
 type verifC15Parent struct {
 	namespaced bool
 	ns         string
+	res        *dynamicdiscovery.APIResource
 	obj        *unstructured.Unstructured
 }
 
@@ -119,7 +125,7 @@ func verifC15ParentRes(namespaced bool) *dynamicdiscovery.APIResource {
 }
 
 func verifC15NewParent(namespaced bool, ns, name, uid string) *verifC15Parent {
-	p := &verifC15Parent{namespaced: namespaced}
+	p := &verifC15Parent{namespaced: namespaced, res: verifC15ParentRes(namespaced)}
 	if namespaced {
 		p.ns = ns
 		p.obj = env.Thing(ns, name, uid)
@@ -138,10 +144,10 @@ const (
 )
 
 const (
-	verifC15SelAbsent = iota // no labelSelector at all
-	verifC15SelEmpty         // labelSelector: {}
-	verifC15SelMatchLabels   // matchLabels: {key: val}
-	verifC15SelIn            // matchExpressions: [{key, In, [val]}]
+	verifC15SelAbsent      = iota // no labelSelector at all
+	verifC15SelEmpty              // labelSelector: {}
+	verifC15SelMatchLabels        // matchLabels: {key: val}
+	verifC15SelIn                 // matchExpressions: [{key, In, [val]}]
 	verifC15SelNotIn
 	verifC15SelExists
 	verifC15SelDoesNotExist
@@ -376,7 +382,7 @@ func verifC15Selection(style int) {
 		objs = append(objs, o)
 	}
 
-	f := verifC15NewFixture(verifC15ParentRes(parentNamespaced), relRes, []*v1alpha1.RelatedResourceRule{rule.rule})
+	f := verifC15NewFixture([]*dynamicdiscovery.APIResource{parent.res}, relRes, []*v1alpha1.RelatedResourceRule{rule.rule})
 	for _, o := range objs {
 		f.relLister.Items = append(f.relLister.Items, o.obj)
 	}
@@ -478,7 +484,7 @@ func VerifC15_TwoRules() {
 		rules = []*v1alpha1.RelatedResourceRule{r2.rule, r1.rule}
 	}
 	o := verifC15NewObj(relRes, "o0", true, true)
-	f := verifC15NewFixture(verifC15ParentRes(parentNamespaced), relRes, rules)
+	f := verifC15NewFixture([]*dynamicdiscovery.APIResource{parent.res}, relRes, rules)
 	f.relLister.Items = []*unstructured.Unstructured{o.obj}
 
 	raw, err := f.mgr.GetRelatedObjects(parent.obj)
@@ -551,13 +557,27 @@ func VerifC15_Events() {
 		rt.Assume(pns != "")
 	}
 	parents := []*verifC15Parent{verifC15NewParent(parentNamespaced, pns, "p", "puid")}
-	if rt.Tier() > 0 && rt.Bool("second-parent") {
-		var qns string
-		if parentNamespaced {
-			qns = rt.String("second-parent-namespace")
-			rt.Assume(qns != "")
+	parentRes := []*dynamicdiscovery.APIResource{parents[0].res}
+	if rt.Tier() > 0 {
+		// a second parent of the same kind, or (as with a decorator watching
+		// several resources) of the kind with the other scope
+		second := rt.Choice("second-parent", 3)
+		if second > 0 {
+			qNamespaced := parentNamespaced
+			if second == 2 {
+				qNamespaced = !parentNamespaced
+			}
+			var qns string
+			if qNamespaced {
+				qns = rt.String("second-parent-namespace")
+				rt.Assume(qns != "")
+			}
+			q := verifC15NewParent(qNamespaced, qns, "q", "quid")
+			parents = append(parents, q)
+			if second == 2 {
+				parentRes = append(parentRes, q.res)
+			}
 		}
-		parents = append(parents, verifC15NewParent(parentNamespaced, qns, "q", "quid"))
 	}
 	rule := verifC15NewRule(style, relRes, "", style == verifC15StyleMixed || rt.Tier() == 0)
 
@@ -583,9 +603,10 @@ func VerifC15_Events() {
 		env.MarkDeleting(old.obj)
 	}
 
-	f := verifC15NewFixture(verifC15ParentRes(parentNamespaced), relRes, []*v1alpha1.RelatedResourceRule{rule.rule})
+	f := verifC15NewFixture(parentRes, relRes, []*v1alpha1.RelatedResourceRule{rule.rule})
 	for _, p := range parents {
-		f.parentLister.Items = append(f.parentLister.Items, p.obj)
+		l := f.parentListers[p.res.Name]
+		l.Items = append(l.Items, p.obj)
 	}
 
 	// what each parent's hook is sent before / after the event (real code)
@@ -685,10 +706,10 @@ func VerifC15_HookAskedOncePerGeneration() {
 	parent := env.Thing("ns", "p", uid)
 	verifC15SetGeneration(parent, gen)
 	rule := &v1alpha1.RelatedResourceRule{ResourceRule: v1alpha1.ResourceRule{APIVersion: "v1", Resource: "configmaps"}, Names: []string{"a"}}
-	f := verifC15NewFixture(env.ThingRes, env.ConfigMapRes, []*v1alpha1.RelatedResourceRule{rule})
+	f := verifC15NewFixture([]*dynamicdiscovery.APIResource{env.ThingRes}, env.ConfigMapRes, []*v1alpha1.RelatedResourceRule{rule})
 	cm := env.ConfigMap("ns", "a", "cmuid", "x")
 	f.relLister.Items = []*unstructured.Unstructured{cm}
-	f.parentLister.Items = []*unstructured.Unstructured{parent}
+	f.parentListers["things"].Items = []*unstructured.Unstructured{parent}
 
 	stale := &v1.CustomizeHookResponse{}
 	base := 0
